@@ -1117,6 +1117,13 @@ class ModelsMixin(object):
     def sseq_contains(self, s, item):
         if isinstance(item, SObj) and item.ref is not None and s.elem.by_identity:
             return SBool(z3.Contains(s.term, z3.Unit(item.ref)))
+        if isinstance(item, SObj):
+            # membership by VALUE (`==` of the element class, e.g. DiameterAVP.__eq__ compares encodings) of an
+            # object that is not itself an element: the elements are arbitrary, so "some element equals it" is
+            # an unknown of the path -- possible exactly when the sequence is non-empty
+            b = z3.Bool(self.fresh_name("member"))
+            self.assume_raw(z3.Implies(b, z3.Length(s.term) > 0))
+            return SBool(b)
         self.unsupported("membership in a symbolic sequence")
 
     def sseq_method(self, s, name, args, kwargs):
